@@ -97,7 +97,36 @@ fn conv(v: &AttributeValue<R>) -> Value {
            "u8": o(v.u8_value().map(|x| x as u64)), "u16": o(v.u16_value().map(|x| x as u64))})
 }
 
+/// The line-table variant: a DWARF 5 line-program header; report its file entries.
+fn replay_line(case: &Value) -> Value {
+    let bytes = bytes_of(&case["line"]);
+    let en = endian(case["le"].as_bool().unwrap_or(true));
+    let asz = case["enc"]["asz"].as_u64().unwrap_or(8) as u8;
+    let dl = gimli::DebugLine::new(&bytes, en);
+    match dl.program(gimli::DebugLineOffset(0), asz, None, None) {
+        Ok(prog) => {
+            let h = prog.header();
+            let files: Vec<Value> = h
+                .file_names()
+                .iter()
+                .map(|f| {
+                    let mut o = json!({"path": vo(&f.path_name()), "dir": bv(f.directory_index(), 8),
+                                       "timestamp": bv(f.timestamp(), 8), "size": bv(f.size(), 8)});
+                    o["md5"] = bytes_json(&f.md5()[..]);
+                    o
+                })
+                .collect();
+            json!({"ok": true, "files": files, "ndirs": h.include_directories().len(),
+                   "header_length": h.header_length() as u64})
+        }
+        Err(e) => json!({"ok": false, "err": err_name(&e)}),
+    }
+}
+
 fn replay(case: &Value) -> Value {
+    if case["t"] == "line" {
+        return replay_line(case);
+    }
     let info = bytes_of(&case["info"]);
     let abbrev = bytes_of(&case["abbrev"]);
     let en = endian(case["le"].as_bool().unwrap_or(true));
@@ -174,80 +203,110 @@ fn replay(case: &Value) -> Value {
     Value::Object(out)
 }
 
-/// Real units: per entry the forms, per-attribute consumption, skip landing.
+/// One real unit: per entry the forms, per-attribute consumption, skip landing.
+fn record_unit(h: &UnitHeader<R>, da: &DebugAbbrev<R>, rng: &mut Rng, evs: &mut Vec<Value>, max_dies: usize, src: &str, le: bool) {
+    let abbrevs = match h.abbreviations(da) {
+        Ok(a) => a,
+        Err(_) => return,
+    };
+    let enc = json!({"ver": h.version(), "fmt": if h.format() == gimli::Format::Dwarf64 {64} else {32}, "asz": h.address_size(), "le": le});
+    let mut raw = match h.entries_raw(&abbrevs, None) {
+        Ok(r) => r,
+        Err(_) => return,
+    };
+    let mut nd = 0;
+    while !raw.is_empty() && nd < max_dies {
+        let mut skipper = raw.clone();
+        let ab = match raw.read_abbreviation() {
+            Ok(Some(a)) => a,
+            Ok(None) => continue,
+            Err(_) => break,
+        };
+        nd += 1;
+        let start = raw.next_offset().0;
+        let mut attrs = Vec::new();
+        let mut failed = false;
+        for spec in ab.attributes() {
+            let o0 = raw.next_offset().0;
+            match raw.read_attribute(*spec) {
+                Ok(at) => {
+                    let (kind, _) = value_obs(&at.raw_value());
+                    attrs.push(json!({"form": spec.form().0, "name": spec.name().0, "n": raw.next_offset().0 - o0, "kind": kind,
+                                      "size": spec.size(h).map(|x| x as i64).unwrap_or(-1)}));
+                    if rng.chance(1, 6) {
+                        evs.push(json!({"ev":"Norm","src":src,"name":spec.name().0,"raw":vo(&at.raw_value()),"norm":vo(&at.value()),"conv":conv(&at.raw_value())}));
+                    }
+                }
+                Err(_) => {
+                    failed = true;
+                    break;
+                }
+            }
+        }
+        if failed {
+            break;
+        }
+        let _ = skipper.read_abbreviation();
+        let sk = guarded(|| match skipper.skip_attributes(ab.attributes()) {
+            Ok(()) => json!({"ok": true, "n": skipper.next_offset().0 - start}),
+            Err(e) => json!({"ok": false, "err": err_name(&e)}),
+        });
+        evs.push(json!({"ev":"Die","src":src,"enc":enc,"attrs":attrs,"read_n":raw.next_offset().0 - start,"skip":sk}));
+    }
+}
+
+fn record_dir(dir: &str, src: &str, rng: &mut Rng, evs: &mut Vec<Value>, max_units: usize, max_dies: usize, sample: u64) {
+    let en = RunTimeEndian::Little;
+    for (i, a) in [("debug_info", "debug_abbrev"), ("debug_info.dwo", "debug_abbrev.dwo")] {
+        let (info, abbrev) = match (std::fs::read(format!("{}/{}", dir, i)), std::fs::read(format!("{}/{}", dir, a))) {
+            (Ok(i), Ok(a)) => (i, a),
+            _ => continue,
+        };
+        let da = DebugAbbrev::new(&abbrev, en);
+        let mut it = DebugInfo::new(&info, en).units();
+        let mut nu = 0;
+        while let Ok(Some(h)) = it.next() {
+            if nu >= max_units {
+                break;
+            }
+            if sample > 1 && rng.below(sample) != 0 {
+                continue;
+            }
+            nu += 1;
+            record_unit(&h, &da, rng, evs, max_dies, src, true);
+        }
+        let tname = if i.ends_with(".dwo") { "debug_types.dwo" } else { "debug_types" };
+        if let Ok(types) = std::fs::read(format!("{}/{}", dir, tname)) {
+            let mut it = gimli::DebugTypes::new(&types, en).units();
+            let mut nu = 0;
+            while let Ok(Some(h)) = it.next() {
+                if nu >= max_units {
+                    break;
+                }
+                nu += 1;
+                record_unit(&h, &da, rng, evs, max_dies, src, true);
+            }
+        }
+    }
+}
+
+/// Real units: the repository's self fixture and the compiled corpus.
 fn record(out: &str, a: &Args) {
     let mut rng = Rng::new(a.num("--seed", 1));
     let fx = a.opt("--fixture").unwrap_or("/repo/fixtures/self");
     let max_units = a.num("--units", 10) as usize;
     let max_dies = a.num("--dies", 3000) as usize;
     let mut evs: Vec<Value> = Vec::new();
-    let (info, abbrev) = match (std::fs::read(format!("{}/debug_info", fx)), std::fs::read(format!("{}/debug_abbrev", fx))) {
-        (Ok(i), Ok(a)) => (i, a),
-        _ => {
-            write_lines(out, &evs);
-            return;
-        }
-    };
-    let en = RunTimeEndian::Little;
-    let di = DebugInfo::new(&info, en);
-    let da = DebugAbbrev::new(&abbrev, en);
-    let mut it = di.units();
-    let mut nu = 0;
-    while let Ok(Some(h)) = it.next() {
-        if nu >= max_units {
-            break;
-        }
-        if rng.below(3) != 0 {
-            continue;
-        }
-        nu += 1;
-        let abbrevs = match h.abbreviations(&da) {
-            Ok(a) => a,
-            Err(_) => continue,
-        };
-        let enc = json!({"ver": h.version(), "fmt": if h.format() == gimli::Format::Dwarf64 {64} else {32}, "asz": h.address_size(), "le": true});
-        let mut raw = match h.entries_raw(&abbrevs, None) {
-            Ok(r) => r,
-            Err(_) => continue,
-        };
-        let mut nd = 0;
-        while !raw.is_empty() && nd < max_dies {
-            let mut skipper = raw.clone();
-            let ab = match raw.read_abbreviation() {
-                Ok(Some(a)) => a,
-                Ok(None) => continue,
-                Err(_) => break,
-            };
-            nd += 1;
-            let start = raw.next_offset().0;
-            let mut attrs = Vec::new();
-            let mut failed = false;
-            for spec in ab.attributes() {
-                let o0 = raw.next_offset().0;
-                match raw.read_attribute(*spec) {
-                    Ok(at) => {
-                        let (kind, _) = value_obs(&at.raw_value());
-                        attrs.push(json!({"form": spec.form().0, "name": spec.name().0, "n": raw.next_offset().0 - o0, "kind": kind,
-                                          "size": spec.size(&h).map(|x| x as i64).unwrap_or(-1)}));
-                        if rng.chance(1, 8) {
-                            evs.push(json!({"ev":"Norm","name":spec.name().0,"raw":vo(&at.raw_value()),"norm":vo(&at.value()),"conv":conv(&at.raw_value())}));
-                        }
-                    }
-                    Err(_) => {
-                        failed = true;
-                        break;
-                    }
-                }
+    record_dir(fx, "fixture", &mut rng, &mut evs, max_units, max_dies, 3);
+    if let Some(c) = a.opt("--corpus") {
+        let mut dirs: Vec<_> = std::fs::read_dir(c).map(|d| d.filter_map(|e| e.ok()).map(|e| e.path()).collect()).unwrap_or_default();
+        dirs.sort();
+        for d in dirs {
+            let name = d.file_name().and_then(|n| n.to_str()).unwrap_or("").to_string();
+            if !d.is_dir() || name.ends_with("_dwp") {
+                continue; // packages need the index sections to find each unit's abbreviations
             }
-            if failed {
-                break;
-            }
-            let _ = skipper.read_abbreviation();
-            let sk = guarded(|| match skipper.skip_attributes(ab.attributes()) {
-                Ok(()) => json!({"ok": true, "n": skipper.next_offset().0 - start}),
-                Err(e) => json!({"ok": false, "err": err_name(&e)}),
-            });
-            evs.push(json!({"ev":"Die","enc":enc,"attrs":attrs,"read_n":raw.next_offset().0 - start,"skip":sk}));
+            record_dir(d.to_str().unwrap_or(""), &format!("corpus/{}", name), &mut rng, &mut evs, 50, max_dies, 1);
         }
     }
     write_lines(out, &evs);
